@@ -1332,3 +1332,89 @@ Module Ex2.
     split; eexists; eexists; eexists; split; vm_compute; reflexivity.
   Qed.
 End Ex2.
+
+(* ====================================================================== *)
+(* 9. Totality: a bounce is built for every reply text / sender / client   *)
+(*    name that is Unicode (no lone surrogate), whatever characters        *)
+(* ====================================================================== *)
+Definition unicode_ok (t : text) : Prop := forallb valid_cp t = true.
+Definition ascii_ok (t : text) : Prop := forallb (fun c => c <? 128) t = true.
+
+Lemma enc_utf8_ok : forall t, unicode_ok t -> enc_utf8 t = Some (utf8_enc t).
+Proof. intros t H. unfold enc_utf8. rewrite H. reflexivity. Qed.
+
+Lemma ascii_unicode : forall t, ascii_ok t -> unicode_ok t.
+Proof.
+  unfold ascii_ok, unicode_ok. induction t as [|c t IH]; intro H.
+  - reflexivity.
+  - cbn [forallb] in *. apply andb_true_iff in H. destruct H as [H1 H2].
+    apply andb_true_iff. split; [|apply IH; exact H2].
+    unfold valid_cp, is_surrogate. lia.
+Qed.
+
+(* what has to be text for Bounce to be able to render it *)
+Definition env_texts_ok (e : menv) : Prop :=
+  unicode_ok (e_sender e) /\
+  unicode_ok (or_unknown (cl_name (e_client e))) /\
+  unicode_ok (or_unknown (cl_ip (e_client e))).
+Definition reply_texts_ok (r : freply) : Prop :=
+  fr_none r = false /\ ascii_ok (r_code (fr r)) /\ unicode_ok (get_message (fr r)) /\
+  match fr_addr r with Some h => unicode_ok h | None => True end.
+
+Lemma delivery_info_total : forall e r, env_texts_ok e -> reply_texts_ok r ->
+  exists di, delivery_info e r = Some di.
+Proof.
+  intros e r [_ [Hn Hi]] [Hnone [Hc [Hm Ha]]]. unfold delivery_info, reply_bytes, msg_opt.
+  rewrite Hnone. unfold enc_ascii. unfold ascii_ok in Hc. rewrite Hc.
+  rewrite (enc_utf8_ok _ Hn), (enc_utf8_ok _ Hi). cbn [obind]. rewrite (enc_utf8_ok _ Hm). cbn [obind].
+  destruct (cl_nonempty (e_client e)); cbn [obind];
+    (destruct (fr_addr r) as [[|h0 h]|]; [| rewrite (enc_utf8_ok _ Ha) |]; cbn [obind]; eexists; reflexivity).
+Qed.
+
+Theorem bounce_built : forall e r ho u,
+  env_texts_ok e -> reply_texts_ok r ->
+  exists b pre di,
+    bounce_new default_hp default_fp e r ho u = Some b /\
+    b_sender b = [] /\ b_rcpts b = [e_sender e] /\
+    b_msg b = pre ++
+      text_part (boundary_of u) (join rcpt_join (map enc_xmlref (e_rcpts e)))
+                (utf8_enc (r_code (fr r))) (utf8_enc (get_message (fr r))) di (ctype_of ho) ++
+      e_hdr e ++ (if ho then [] else e_body e) ++ closing (boundary_of u).
+Proof.
+  intros e r ho u He Hr.
+  destruct (delivery_info_total e r He Hr) as [di Hdi].
+  destruct He as [Hs [Hn Hi]]. destruct Hr as [Hnone [Hc [Hm Ha]]].
+  assert (Hcu : unicode_ok (r_code (fr r))) by (apply ascii_unicode; exact Hc).
+  assert (Hmo : msg_opt r = Some (get_message (fr r))) by (unfold msg_opt; rewrite Hnone; reflexivity).
+  assert (Hr : exists p, render default_hp default_fp e r ho u = Some p).
+  { unfold render. rewrite Hdi. cbn [obind]. rewrite default_hp_eq, default_fp_eq. cbn [fmt].
+    rewrite !lk_boundary, lk_sender, lk_recipients, lk_di, lk_ctype, lk_code, lk_message.
+    rewrite Hmo. cbn [obind].
+    rewrite (enc_utf8_ok _ Hs), (enc_utf8_ok _ Hcu), (enc_utf8_ok _ Hm).
+    cbn [option_map obind]. eexists. reflexivity. }
+  destruct Hr as [p Hp].
+  assert (Hb : exists b, bounce_new default_hp default_fp e r ho u = Some b).
+  { unfold bounce_new. rewrite Hp. destruct (env_split p) as [h m]. eexists. reflexivity. }
+  destruct Hb as [b Hb].
+  destruct (bounce_shape e r ho u b Hb) as [H1 [H2 [sb [cb [m [mb [di' [pre [Es [Ec [Em [Emb [Edi [_ [Hmsg _]]]]]]]]]]]]]]].
+  exists b, pre, di'. split; [exact Hb|]. split; [exact H1|]. split; [exact H2|].
+  rewrite (enc_utf8_ok _ Hcu) in Ec. apply some_inj in Ec. subst cb.
+  rewrite Hmo in Em. apply some_inj in Em. subst m.
+  rewrite (enc_utf8_ok _ Hm) in Emb. apply some_inj in Emb. subst mb.
+  exact Hmsg.
+Qed.
+
+Module Ex3.
+  Import Ex.
+  (* hypotheses of bounce_built hold for a reply text with 2-, 3- and 4-byte characters,
+     an SMTPUTF8 sender and a non-ASCII client name *)
+  Definition e1 : menv :=
+    mkEnv [109; 252; 108; 108; 101; 114; 64; 20363; 12360; 46; 106; 112] [bs "a@example.com"]
+          (bs "Subject: x" ++ CRLF ++ CRLF) [255; 254; 10]
+          (mkClient true (Some [104; 244; 116; 101]) (Some (bs "192.0.2.1")) None).
+  Definition r1 : freply :=
+    mkF (new_reply is_digit is_ws (bs "550") (bs "5.1.1 " ++ [233; 8364; 26085; 128554])) false
+        (Some (bs "2001:db8::1")).
+  Example built_hyp : env_texts_ok e1 /\ reply_texts_ok r1.
+  Proof. repeat split; vm_compute; reflexivity. Qed.
+End Ex3.
